@@ -556,7 +556,7 @@ fn run_session(sid: &str, progs: &[Prog], opts: &[u32]) {
             let r = run_on_vm(&mut vm, &src, opt, 5_000_000);
             let c = verif::gc_counters();
             let d1 = vm.no_gc_depth();
-            let class = match r.class.as_str() { "ok" => 0, "runtime:DivisionByZero" => 1, "runtime:InvalidBytecode" => 2, "budget" => 3,
+            let class = match r.class.as_str() { "ok" => 0, "runtime:DivisionByZero" => 1, "runtime:InvalidBytecode" => if r.detail.contains("no_gc underflow") { 2 } else { 9 }, "budget" => 3,
                 "compile-error" => 7, "panic" => 8, _ => 9 };
             let e0 = simulate(p, false, d0, 200_000);
             let e1 = simulate(p, true, d0, 200_000);
@@ -577,6 +577,23 @@ fn main() {
     let known_pct = arg_u64("--known-pct", 25);
     let opts: Vec<u32> = arg("--opts").unwrap_or("0,1,2,3".into()).split(',').filter_map(|s| s.parse().ok()).collect();
     let corpus = arg("--corpus");
+    if flag("--probe-order") {
+        // behavioural translator input: where does compiled code run ExitNoGc relative to the return expression?
+        use aelys_runtime::verif;
+        use hxlib::runner::*;
+        let mut vm = aelys_driver::new_vm_with_config(Default::default(), Vec::new()).unwrap();
+        verif::gc_mode_set(2, 0);
+        let r0 = run_on_vm(&mut vm, PRELUDE, 0, 1_000_000);
+        verif::gc_counters_reset();
+        let r = run_on_vm(&mut vm, "@no_gc\nfn pr_f(a, b) { return a + b }\nacc = pr_f(acc, sx)\nacc\n", 0, 1_000_000);
+        let c = verif::gc_counters();
+        let d = vm.no_gc_depth();
+        let verdict = if r0.class != "ok" || r.class != "ok" || c.0 != 2 { "PROBE-FAILED" }
+            else if c.1 == 0 && d == 0 { "RetExitFirst" } else if c.1 == 1 && d == 0 { "RetExitAfterExpr" }
+            else if c.1 == 1 && d == 1 { "RetNoExit" } else { "PROBE-FAILED" };
+        println!("{} class={} safepoints={} at_depth>0={} depth_after={}", verdict, r.class, c.0, c.1, d);
+        return;
+    }
     if let Some(file) = arg("--raw") {
         // probe mode: raw source inputs separated by lines `=====`, run as one REPL session
         use aelys_runtime::verif;
